@@ -175,6 +175,15 @@ func childConc() error {
 	conf := conffile.NewFileConfigForVerif(conffile.WithHomePath(sp.Dir), conffile.WithConfigObserver(ob))
 	out.Versions = append(out.Versions, concVersion{Lines: v0, Sec: sec, Ms: ms, Snap: snapPairs(conf), Notes: po.take()})
 
+	// a key the environment of this process names without the history knowing is never asked for
+	// (an absent key is answered from the environment)
+	askable := func(k string) bool {
+		if _, planned := sp.Env[k]; planned {
+			return true
+		}
+		_, set := os.LookupEnv(k)
+		return !set
+	}
 	var started, done atomic.Int64 // index of the reload that last began / last finished
 	var stop atomic.Bool
 	var reads atomic.Int64
@@ -189,6 +198,7 @@ func childConc() error {
 			first := true
 			n := int64(0)
 			last := map[string]string{} // this reader's previous observation per key
+			canAsk := map[string]bool{}
 			lastKeys, chg := -1, 0
 			for !stop.Load() {
 				lo := int(done.Load())
@@ -205,6 +215,14 @@ func childConc() error {
 						k = concDefaultKeys[rr.Intn(len(concDefaultKeys))]
 					default:
 						k = fmt.Sprintf("key%d", rr.Intn(sp.Keys))
+					}
+					ok, known := canAsk[k]
+					if !known {
+						ok = askable(k)
+						canAsk[k] = ok
+					}
+					if !ok {
+						k = "key0"
 					}
 					switch n % 4 {
 					case 0:
